@@ -111,7 +111,7 @@ def map_instance_labels(
     pred_labels = processing_pair.pred_labels
 
     ref_matched_labels = []
-    label_counter = int(max(ref_labels) + 1)
+    label_counter = int(max(ref_labels)) + 1
 
     pred_labelmap = labelmap.get_one_to_one_dictionary()
     ref_matched_labels = list([r for r in ref_labels if r in pred_labelmap.values()])
@@ -131,7 +131,9 @@ def map_instance_labels(
     # Build a MatchedInstancePair out of the newly derived data
     matched_instance_pair = MatchedInstancePair(
         prediction_arr=prediction_arr_relabeled,
-        reference_arr=processing_pair._reference_arr,
+        reference_arr=processing_pair._reference_arr.astype(
+            prediction_arr_relabeled.dtype, copy=False
+        ),
     )
     return matched_instance_pair
 
